@@ -12,6 +12,7 @@ pub async fn sweep(h: &mut Hyb, via: &'static str) -> Vec<Res> {
     let mut out = vec![];
     let Some(cache) = h.cache.clone() else { return out };
     for k in 0..keys {
+        crate::hybscn::OP_INV.with(|c| c.set(hist::now()));
         match cache.get(&k).await {
             Ok(Some(e)) => {
                 let r = judge(&h.case, k, e.value(), via);
@@ -35,7 +36,7 @@ pub async fn sweep(h: &mut Hyb, via: &'static str) -> Vec<Res> {
 pub async fn end_of_workload(h: &mut Hyb) {
     let prop = h.case.property.clone();
     match prop.as_str() {
-        "C01" | "C17" => {
+        "C01" | "C17" | "C12" | "C15" => {
             if h.cache.is_some() && !ST.with(|s| s.borrow().closed) {
                 let rs = sweep(h, "final-sweep").await;
                 if rs.iter().any(|r| r.tag == Res::HIT) {
@@ -47,6 +48,429 @@ pub async fn end_of_workload(h: &mut Hyb) {
     }
 }
 
-pub fn post(_case: &Case) {
+pub fn post(case: &Case) {
     let _ = Op::Clear;
+    match case.property.as_str() {
+        "C12" => c12(case),
+        "C15" => c15(case),
+        _ => {}
+    }
+}
+
+// ---------------------------------------------------------------------------------------------------------------
+// Entry-level write log: every data write of the device, parsed by the independent parser.
+
+#[derive(Clone, Debug)]
+pub struct EntryWrite {
+    pub key: Option<u64>,
+    pub ver: Option<u32>,
+    pub hash: u64,
+    pub sequence: u64,
+    pub issue_seq: u64,
+    pub apply_seq: Option<u64>,
+    pub part: usize,
+    pub offset: usize,
+    pub len: usize,
+    pub generation: u32,
+}
+
+pub fn entry_writes() -> Vec<EntryWrite> {
+    use crate::{parser, simdev, types::Tagged};
+    simdev::DISK.with(|d| {
+        let d = d.borrow();
+        let mut out = vec![];
+        for w in d.writes.iter() {
+            for e in parser::parse_entries(&w.data) {
+                if !e.checksum_ok {
+                    continue;
+                }
+                let (key, ver) = match (&e.key, &e.value) {
+                    (Some(k), Some(Tagged::Ok { key, ver, .. })) if k == key => (Some(*k), Some(*ver)),
+                    (Some(k), _) => (Some(*k), None),
+                    _ => (None, None),
+                };
+                out.push(EntryWrite {
+                    key,
+                    ver,
+                    hash: e.header.hash,
+                    sequence: e.header.sequence,
+                    issue_seq: w.issue_seq,
+                    apply_seq: w.apply_seq,
+                    part: w.part,
+                    offset: w.offset + e.at,
+                    len: e.len,
+                    generation: w.generation,
+                });
+            }
+        }
+        out
+    })
+}
+
+fn rejected(case: &Case, k: u64) -> bool {
+    let m = case.get("reject_mod").max(0) as u64;
+    let h = crate::hybscn::hash_of(case.get("hmode") as u8, k);
+    (m > 0 && h % m == m - 1) || case.get("admit_mode") != 0
+}
+
+// ---------------------------------------------------------------------------------------------------------------
+// C12: disk writes happen exactly when policy and placement advice say so.
+
+pub fn c12(case: &Case) {
+    use std::collections::{BTreeMap, BTreeSet};
+    let evs = hist::events_clone();
+    let writes = entry_writes();
+    let woi = case.get("policy") == 1;
+    let v = |rule: &str, detail: String, extra: &[(&str, String)]| {
+        let mut shape: Vec<(&str, String)> = vec![("policy", if woi { "woi".into() } else { "woe".into() })];
+        shape.extend(extra.iter().cloned());
+        hist::violation("C12", rule, detail, &shape);
+    };
+    // version -> location class
+    let mut loc: BTreeMap<(u64, u32), u8> = BTreeMap::new();
+    // licences: (k, ver) -> list of (time, cause); voided ones removed
+    let mut lic: BTreeMap<(u64, u32), Vec<(u64, &'static str)>> = BTreeMap::new();
+    // resident age per version: 0 fresh, 1 young, 2 old
+    let mut resident: BTreeMap<(u64, u32), u64> = BTreeMap::new();
+    let mut hits: BTreeMap<(u64, u32), Vec<u64>> = BTreeMap::new();
+    let mut closed_at: Option<u64> = None;
+    let mut last_licence_of_hash: BTreeMap<u64, (u64, u32)> = BTreeMap::new();
+    let hmode = case.get("hmode") as u8;
+    for e in &evs {
+        match e.kind {
+            "h_insert" => {
+                let (k, ver, l) = (e.a, e.b as u32, e.c as u8);
+                loc.insert((k, ver), l);
+                // a replaced older version of the key is no longer resident
+                resident.retain(|(kk, _), _| *kk != k);
+                if l != 2 {
+                    resident.insert((k, ver), 0);
+                }
+                let licensed = match l {
+                    1 => false,
+                    2 => true,
+                    _ => woi,
+                };
+                if licensed && closed_at.is_none() && !rejected(case, k) {
+                    lic.entry((k, ver)).or_default().push((e.seq, if l == 2 { "ondisk-insert" } else { "woi-insert" }));
+                    last_licence_of_hash.insert(crate::hybscn::hash_of(hmode, k), (k, ver));
+                }
+            }
+            "h_get" | "h_fetch" if e.b != 0 && e.b != u32::MAX as u64 => {
+                let (k, ver) = (e.a, e.b as u32);
+                let (src, age) = (e.c & 0xff, e.c >> 8);
+                match src {
+                    1 => {
+                        // freshly fetched from the origin
+                        let class = crate::hybscn::key_class(case, k);
+                        loc.entry((k, ver)).or_insert(class);
+                        resident.retain(|(kk, _), _| *kk != k);
+                        if class != 2 {
+                            resident.insert((k, ver), 0);
+                        }
+                        if (woi || class == 2) && class != 1 && closed_at.is_none() && !rejected(case, k) {
+                            lic.entry((k, ver)).or_default().push((e.seq, "fetched"));
+                            last_licence_of_hash.insert(crate::hybscn::hash_of(hmode, k), (k, ver));
+                        }
+                    }
+                    3 => {
+                        resident.retain(|(kk, _), _| *kk != k);
+                        resident.insert((k, ver), age);
+                        hits.entry((k, ver)).or_default().push(e.seq);
+                    }
+                    _ => {
+                        // memory hit, or served from the write queue (then the record is resident again, fresh)
+                        resident.entry((k, ver)).or_insert(0);
+                        hits.entry((k, ver)).or_default().push(e.seq);
+                    }
+                }
+            }
+            "mem_leave" => {
+                let (reason, k, ver) = (e.a, e.b, e.c as u32);
+                let age = resident.remove(&(k, ver));
+                let l = loc.get(&(k, ver)).copied().unwrap_or(0);
+                if reason == 0 && !woi && l == 0 && closed_at.is_none() && !rejected(case, k) {
+                    if matches!(age, Some(0) | Some(2) | None) {
+                        lic.entry((k, ver)).or_default().push((e.seq, "evicted"));
+                        last_licence_of_hash.insert(crate::hybscn::hash_of(hmode, k), (k, ver));
+                    } else {
+                        hist::probe("c12_young_eviction_no_licence");
+                    }
+                }
+            }
+            "shed" => {
+                // the entry could not be written: its licence is void
+                if let Some(kv) = last_licence_of_hash.get(&e.a) {
+                    if let Some(l) = lic.get_mut(kv) {
+                        l.pop();
+                    }
+                }
+            }
+            "close_ret" => {
+                if closed_at.is_none() {
+                    closed_at = Some(e.seq);
+                }
+            }
+            "reopened" => closed_at = None,
+            "h_ondisk_resident" => {
+                hist::probe("c12_ondisk_checked");
+                if e.c != 0 {
+                    v("ondisk-entry-resident", format!("entry ({},v{}) advised on-disk is retained in memory", e.a, e.b), &[]);
+                }
+            }
+            _ => {}
+        }
+    }
+    // (a) no write without a licence
+    let mut by_ver: BTreeMap<(u64, u32), BTreeSet<u64>> = BTreeMap::new();
+    for w in &writes {
+        if let (Some(k), Some(ver)) = (w.key, w.ver) {
+            by_ver.entry((k, ver)).or_default().insert(w.sequence);
+        }
+    }
+    for ((k, ver), seqs) in &by_ver {
+        hist::probe("c12_written_version_checked");
+        let class = loc.get(&(*k, *ver)).copied().unwrap_or_else(|| crate::hybscn::key_class(case, *k));
+        let n_lic = lic.get(&(*k, *ver)).map(|l| l.len()).unwrap_or(0);
+        if class == 1 {
+            v("inmem-entry-written", format!("entry ({k},v{ver}) advised in-memory-only was written to disk ({} time(s))", seqs.len()), &[]);
+            continue;
+        }
+        if rejected(case, *k) {
+            v("rejected-entry-written", format!("entry ({k},v{ver}) was written although the admission filter does not admit it"), &[]);
+            continue;
+        }
+        if seqs.len() > n_lic {
+            hist::set_nontrivial();
+            let had_hit = hits.get(&(*k, *ver)).map(|h| !h.is_empty()).unwrap_or(false);
+            v(
+                "unlicensed-write",
+                format!(
+                    "entry ({k},v{ver}) was written {} time(s) with distinct sequences but only {} hand-over(s) are licensed by policy ({})",
+                    seqs.len(),
+                    n_lic,
+                    if woi { "write-on-insertion: one per insert / fresh fetch" } else { "write-on-eviction: one per eviction of a fresh or old entry" }
+                ),
+                &[("after_hit", had_hit.to_string()), ("class", class.to_string())],
+            );
+        } else if n_lic > 0 {
+            hist::set_nontrivial();
+        }
+    }
+    // (b) every licensed hand-over is written by the next completed wait()/close()
+    let barriers: Vec<(u64, u64)> = {
+        let mut b = vec![];
+        let mut inv = None;
+        for e in &evs {
+            match e.kind {
+                "wait_inv" | "close_inv" => inv = Some(e.seq),
+                "wait_ret" | "close_ret" => {
+                    if let Some(i) = inv.take() {
+                        b.push((i, e.seq));
+                    }
+                }
+                _ => {}
+            }
+        }
+        b
+    };
+    // the hand-over is complete when the entry has been submitted to its flusher (a background task that evicts may
+    // be delayed between the eviction and the submission; wait() only covers what has been submitted)
+    let handoffs = ST.with(|s| s.borrow().handoffs.clone());
+    let submitted_after = |k: u64, ver: u32, t: u64| -> Option<u64> {
+        // engine sequences under which this version was handed over, then the matching "submitted" probe
+        let seqs: Vec<u64> = handoffs.iter().filter(|(hk, hv, _, _)| *hk == k && *hv == ver).map(|x| x.2).collect();
+        let h = crate::hybscn::hash_of(hmode, k);
+        evs.iter().find(|e| e.kind == "submitted" && e.a == h && seqs.contains(&e.b) && e.seq > t).map(|e| e.seq)
+    };
+    for ((k, ver), ls) in &lic {
+        for (t, cause) in ls {
+            let Some(sub) = submitted_after(*k, *ver, *t) else { continue };
+            if let Some((_, ret)) = barriers.iter().find(|(inv, _)| *inv > sub) {
+                hist::probe("c12_licence_with_barrier");
+                let written = writes.iter().any(|w| w.key == Some(*k) && w.ver == Some(*ver) && w.apply_seq.map(|a| a < *ret).unwrap_or(false));
+                if !written {
+                    v(
+                        "missing-write",
+                        format!("entry ({k},v{ver}) was handed to the disk tier ({cause}) at {t} but no device write of it completed before wait()/close() returned at {ret}"),
+                        &[("cause", cause.to_string())],
+                    );
+                }
+            }
+        }
+    }
+    // (d) the origin runs only after the disk lookup resolved
+    let mut held: Option<(u64, u64)> = None;
+    for e in &evs {
+        match e.kind {
+            "held_fetch_start" => held = Some((e.a, e.seq)),
+            "held_fetch_release" => {
+                if e.b == 0 {
+                    hist::probe("c12_held_fetch_blocked");
+                }
+                held = None;
+            }
+            "origin_start" => {
+                if let Some((k, at)) = held {
+                    if k == e.a {
+                        v(
+                            "origin-before-disk-lookup",
+                            format!("origin fetch of key {k} started at {} while its disk lookup (held since {at}) had not resolved", e.seq),
+                            &[],
+                        );
+                    }
+                }
+            }
+            _ => {}
+        }
+    }
+}
+
+// ---------------------------------------------------------------------------------------------------------------
+// C15: a graceful close persists what memory held.
+
+pub fn c15(case: &Case) {
+    use std::collections::BTreeMap;
+    let evs = hist::events_clone();
+    let woi = case.get("policy") == 1;
+    let foc = case.get("flush_on_close") != 0;
+    let hmode = case.get("hmode") as u8;
+    let v = |rule: &str, detail: String| {
+        hist::violation(
+            "C15",
+            rule,
+            detail,
+            &[("policy", if woi { "woi".into() } else { "woe".into() }), ("flush_on_close", foc.to_string())],
+        );
+    };
+    // close windows
+    let mut closes: Vec<(u64, u64)> = vec![];
+    let mut inv = None;
+    let mut reopened_at: Option<u64> = None;
+    for e in &evs {
+        match e.kind {
+            "close_inv" => inv = Some(e.seq),
+            "close_ret" => {
+                if let Some(i) = inv.take() {
+                    if reopened_at.is_none() {
+                        closes.push((i, e.seq));
+                    }
+                }
+            }
+            "reopened" => {
+                if reopened_at.is_none() && !closes.is_empty() {
+                    reopened_at = Some(e.seq);
+                }
+            }
+            _ => {}
+        }
+    }
+    let Some(&(c_inv, c_ret)) = closes.first() else { return };
+    let cleaned = evs.iter().any(|e| e.kind == "dev_write_apply" && false);
+    let _ = cleaned;
+    // nothing new is handed to the disk tier at close when flush-on-close is off; second close writes nothing;
+    // nothing is accepted after close
+    let client_task = evs.iter().find(|e| e.kind == "close_inv").map(|e| e.task).unwrap_or(usize::MAX);
+    // (hand-offs by background tasks that merely overlap the close are not caused by it)
+    for e in evs.iter().filter(|e| e.kind == "enqueue" && e.task == client_task) {
+        if !foc && e.seq > c_inv && e.seq < c_ret {
+            v("handed-over-at-close-without-flush", format!("hash {} was handed to the disk tier during close() although flush_on_close is off", e.a));
+        }
+        for (i, r) in closes.iter().skip(1) {
+            if e.seq > *i && e.seq < *r {
+                v("repeated-close-writes", format!("hash {} was handed to the disk tier by a repeated close()", e.a));
+            }
+        }
+        if e.seq > c_ret && reopened_at.map(|r| e.seq < r).unwrap_or(true) && closes.iter().all(|(i, r)| !(e.seq > *i && e.seq < *r)) {
+            v("write-accepted-after-close", format!("hash {} was accepted by the disk tier after close() returned", e.a));
+        }
+    }
+    let Some(reopen) = reopened_at else { return };
+    if !foc && !woi {
+        return;
+    }
+    // every entry resident at close (not in-memory-only, admitted, not shed) is retrievable with its latest value
+    let shed_hashes: Vec<u64> = evs.iter().filter(|e| e.kind == "shed" && e.seq < c_ret).map(|e| e.a).collect();
+    let reclaimed = crate::simdev::DISK.with(|d| {
+        d.borrow().writes.iter().any(|w| w.offset == 0 && w.data.len() == crate::simdev::PAGE && w.data.iter().all(|b| *b == 0) && w.part >= 1)
+    });
+    if reclaimed {
+        hist::probe("c15_skipped_reclaim_happened");
+        return;
+    }
+    let mut after: BTreeMap<u64, (u64, u64)> = BTreeMap::new();
+    for e in evs.iter().filter(|e| e.kind == "sweep_get" && e.seq > reopen) {
+        after.entry(e.a).or_insert((e.b, e.c));
+    }
+    for e in evs.iter().filter(|e| e.kind == "resident_at_close") {
+        let (k, ver) = (e.a, e.b as u32);
+        if crate::hybscn::key_class(case, k) == 1 || rejected(case, k) || shed_hashes.contains(&crate::hybscn::hash_of(hmode, k)) {
+            continue;
+        }
+        // keys touched again after the close are outside the claim (generators only touch fresh keys after close)
+        let Some((got, tag)) = after.get(&k).copied() else { continue };
+        hist::probe("c15_resident_checked");
+        hist::set_nontrivial();
+        if tag != Res::HIT as u64 || got as u32 != ver {
+            // classification aid: was the entry written, but does its block contain a sequence regression (which makes
+            // recovery drop the rest of the block)?
+            let regress = block_has_sequence_regression(case);
+            let written = entry_writes().iter().any(|w| w.key == Some(k) && w.apply_seq.map(|a| a < c_ret).unwrap_or(false) && (w.ver == Some(ver) || w.ver.is_none()));
+            hist::violation(
+                "C15",
+                "resident-entry-not-persisted",
+                format!("entry ({k},v{ver}) was resident in memory at close(); after reopening a lookup returned {} (tag {tag})", if tag == Res::HIT as u64 { format!("v{got}") } else { "nothing".into() }),
+                &[
+                    ("policy", if woi { "woi".into() } else { "woe".into() }),
+                    ("flush_on_close", foc.to_string()),
+                    ("written_before_close_returned", written.to_string()),
+                    ("sequence_regression_in_a_block", regress.to_string()),
+                ],
+            );
+            continue;
+        }
+        if false {
+            v(
+                "resident-entry-not-persisted",
+                format!("entry ({k},v{ver}) was resident in memory at close(); after reopening a lookup returned {} (tag {tag})", if tag == Res::HIT as u64 { format!("v{got}") } else { "nothing".into() }),
+            );
+        }
+    }
+}
+
+
+/// Does any block of the current image hold blob-index entries whose sequences decrease (in scan order)?
+pub fn block_has_sequence_regression(case: &Case) -> bool {
+    let g = crate::hybscn::geo(case);
+    let first_block = if g.tomb { 1 } else { 0 };
+    crate::simdev::DISK.with(|d| {
+        let d = d.borrow();
+        d.parts.iter().skip(first_block).any(|b| {
+            let (located, _) = crate::parser::scan_block(b, g.blob_index_size);
+            located.windows(2).any(|w| w[1].sequence < w[0].sequence)
+        })
+    })
+}
+
+
+/// Tombstones (hash, sequence) that were written to the tombstone log at some point but are missing from the current
+/// image of the log (partition 0 when the log is enabled).
+pub fn tombstones_lost() -> Vec<(u64, u64)> {
+    use std::collections::BTreeSet;
+    crate::simdev::DISK.with(|d| {
+        let d = d.borrow();
+        let parse = |bytes: &[u8]| -> BTreeSet<(u64, u64)> {
+            bytes
+                .chunks_exact(16)
+                .map(|c| (u64::from_be_bytes(c[0..8].try_into().unwrap()), u64::from_be_bytes(c[8..16].try_into().unwrap())))
+                .filter(|(_, s)| *s != 0)
+                .collect()
+        };
+        let mut ever: BTreeSet<(u64, u64)> = BTreeSet::new();
+        for w in d.writes.iter().filter(|w| w.part == 0) {
+            ever.extend(parse(&w.data));
+        }
+        let now = d.parts.first().map(|p| parse(p)).unwrap_or_default();
+        ever.difference(&now).copied().collect()
+    })
 }
